@@ -56,7 +56,11 @@ func init() {
 			v := e.input(a[0], 64).(*term.T)
 			n := asT(a[1])
 			e.assume(term.Ult(v, n))
-			return cint(int(e.concretize(v, "choice "+a[0].(string))))
+			lim := 70
+			if n.IsConst() {
+				lim = int(n.Val)
+			}
+			return cint(int(e.concretizeMax(v, "choice "+a[0].(string), lim)))
 		},
 		rtPkg + "Concrete": func(e *Engine, _ *frame, _ token.Pos, a []Value) Value {
 			t := asT(a[0])
@@ -97,6 +101,14 @@ func init() {
 			e.checkRaceFree(a[0].(string))
 			return nil
 		},
+		rtPkg + "RunLoopBody": func(e *Engine, fr *frame, pos token.Pos, a []Value) Value {
+			e.runLoopBody(fr, a[0].(string), int(asT(a[1]).Val), a[2].(Iface).V)
+			return nil
+		},
+		rtPkg + "KernelCoverage": func(e *Engine, _ *frame, _ token.Pos, a []Value) Value {
+			e.kernelCoverage(asT(a[0]))
+			return nil
+		},
 		rtPkg + "SetCwd": func(e *Engine, _ *frame, _ token.Pos, a []Value) Value {
 			e.cwd = a[0].(string)
 			return nil
@@ -129,6 +141,7 @@ func init() {
 		"crypto/md5.Sum":            md5Sum,
 		"hash/crc32.ChecksumIEEE":   crcIEEE,
 		"reflect.TypeOf":            func(e *Engine, _ *frame, _ token.Pos, a []Value) Value { return Iface{T: rtypeMarker, V: RType{a[0].(Iface).T}} },
+		"internal/reflectlite.TypeOf": func(e *Engine, _ *frame, _ token.Pos, a []Value) Value { return Iface{T: rtypeMarker, V: RType{a[0].(Iface).T}} },
 		"reflect.DeepEqual":         func(e *Engine, _ *frame, _ token.Pos, a []Value) Value { return e.deepEqual(a[0], a[1]) },
 		"sort.Slice":                sortSlice,
 		"sort.SliceStable":          sortSlice,
@@ -185,6 +198,8 @@ func (e *Engine) setOption(o string) {
 	switch o {
 	case "fork-shifts":
 		e.opt.ForkShifts = true
+	case "int-mode":
+		e.opt.IntMode = true
 	case "no-merge":
 		e.opt.NoMerge = true
 	case "footprints":
@@ -660,6 +675,11 @@ func kernel(e *Engine, a []Value, add, simd bool, pos token.Pos) Value {
 		e.obligation(term.False, "kernel called with the wrong table", false)
 	}
 	e.note("contract:asm-kernel")
+	if !ref.C.IsConst() {
+		if v, ok := e.uniqueValue(ref.C); ok {
+			ref = &TableRef{Kind: ref.Kind, C: term.Const(16, v), Field: ref.Field}
+		}
+	}
 	name := "scalar"
 	if simd {
 		name = "ssse3"
@@ -718,4 +738,118 @@ func kernel(e *Engine, a []Value, add, simd bool, pos token.Pos) Value {
 type absKernelCall struct {
 	simd    bool
 	in, out AbsSlice
+}
+
+// runLoopBody executes one iteration of the n-th loop of fn from an arbitrary
+// state of its loop variables (the header phis are havoced); the path ends at
+// the back edge or at the loop exit.  Used for table-construction loops.
+func (e *Engine) runLoopBody(caller *frame, name string, n int, pre Value) {
+	var fn *ssa.Function
+	if name == "@gf2p16-table-init" {
+		fn = e.tableInit
+	} else {
+		for f := range ssautilAllFunctions(e.prog) {
+			if f.String() == name {
+				fn = f
+				break
+			}
+		}
+	}
+	if fn == nil || fn.Blocks == nil {
+		panic(unsupported("RunLoopBody: no such function " + name))
+	}
+	h := loopHeader(fn, n)
+	fr := &frame{e: e, caller: caller, fn: fn, env: map[ssa.Value]Value{}}
+	for _, l := range fn.Locals {
+		cell := new(Value)
+		*cell = zero(deref(l.Type()))
+		fr.env[l] = cell
+	}
+	if len(fn.Params) > 0 || len(fn.FreeVars) > 0 {
+		panic(unsupported("RunLoopBody on a function with parameters"))
+	}
+	for _, in := range h.Instrs {
+		p, ok := in.(*ssa.Phi)
+		if !ok {
+			break
+		}
+		w := typeWidth(p.Type())
+		if w < 0 {
+			panic(unsupported("RunLoopBody: non-scalar loop variable " + p.Comment))
+		}
+		fr.env[p] = e.freshVar("loop_"+p.Comment, w)
+	}
+	if !isNilVal(pre) {
+		// assumed loop invariant over the loop variables (parameters by name)
+		var sig *types.Signature
+		switch f := pre.(type) {
+		case *ssa.Function:
+			sig = f.Signature
+		case *Closure:
+			sig = f.Fn.Signature
+		}
+		var args []Value
+		for i := 0; i < sig.Params().Len(); i++ {
+			var found Value
+			for _, in := range h.Instrs {
+				if p, ok := in.(*ssa.Phi); ok && p.Comment == sig.Params().At(i).Name() {
+					found = fr.env[p]
+				}
+			}
+			if found == nil {
+				panic(unsupported("RunLoopBody: invariant parameter matches no loop variable: " + sig.Params().At(i).Name()))
+			}
+			args = append(args, found)
+		}
+		e.assume(asT(e.call(caller, token.NoPos, pre, args)))
+	}
+	e.res.Funcs[name+" (loop body)"]++
+	if e.fnByName == nil {
+		e.fnByName = map[string]*ssa.Function{}
+	}
+	e.fnByName[name+" (loop body)"] = fn
+	fr.cut = &cutState{header: h, active: true, bodyOnly: true, inLoop: loopBlocks(h)}
+	fr.block = h
+	fr.skipPhis = true
+	for fr.block != nil {
+		e.runFrame(fr)
+	}
+	panic(pathEnd{"loop-exit"})
+}
+
+// kernelCoverage checks that the kernel calls recorded on this path
+// partition [0, total) of both buffers: an optional SIMD call on the whole
+// buffers (it processes 32*floor(len/32) bytes) and an optional scalar call
+// on the remaining tail.
+func (e *Engine) kernelCoverage(total *term.T) {
+	total = toInt(total, types.Typ[types.Int])
+	var simd, scalar *absKernelCall
+	for i := range e.absKernel {
+		k := &e.absKernel[i]
+		if k.simd {
+			if simd != nil {
+				e.obligation(term.False, "dispatch: more than one SIMD kernel call", false)
+			}
+			simd = k
+		} else {
+			if scalar != nil {
+				e.obligation(term.False, "dispatch: more than one scalar kernel call", false)
+			}
+			scalar = k
+		}
+	}
+	zero := term.IntConst(0)
+	covered := zero
+	if simd != nil {
+		e.obligation(term.BAnd(term.Eq(simd.in.Off, zero), term.Eq(simd.out.Off, zero)), "dispatch: SIMD kernel starts at offset 0 of both buffers", false)
+		e.obligation(term.Eq(simd.in.Len, total), "dispatch: SIMD kernel is given the whole buffer", false)
+		covered = term.IMul(term.IntConst(32), term.IDiv(total, term.IntConst(32)))
+	}
+	if scalar != nil {
+		e.obligation(term.BAnd(term.Eq(scalar.in.Off, covered), term.Eq(scalar.out.Off, covered)), "dispatch: scalar kernel starts where the SIMD part ends", false)
+		e.obligation(term.Eq(term.IAdd(scalar.in.Off, scalar.in.Len), total), "dispatch: scalar kernel ends at the end of the buffer", false)
+		covered = total
+	}
+	e.obligation(term.Eq(covered, total), "dispatch: every byte of the buffer is covered", false)
+	e.res.Reached[fmt.Sprintf("kernels:simd=%v,scalar=%v", simd != nil, scalar != nil)]++
 }
